@@ -243,9 +243,9 @@ Proof.
     + (* active: stage the helper *)
       apply Hdrop; [apply same_wt_tasks; reflexivity | reflexivity | cbn; auto |]. right.
       intros p [_ [Hw|Hw]];
-        change (tw_of (stage (rc_inc g u0) (HelperBody u0 (tw_of g u0))) u0) with (tw_of g u0) in Hw;
+        change (tw_of (add_log (stage (rc_inc g u0) (HelperBody u0 (tw_of g u0))) (EvHelp (gid g u0) (tw_of g u0))) u0) with (tw_of g u0) in Hw;
         [|rewrite Hw in Est; discriminate Est].
-      left. cbn [staged stage set_staged]. left. rewrite Hw. reflexivity.
+      left. cbn [staged stage set_staged add_log]. left. rewrite Hw. reflexivity.
     + (* suspended *) apply (keep_same g ls); auto using same_wt_refl. rewrite Ha, Es, Hso. cbn. auto.
     + (* pending_boost *) apply (keep_same g ls); auto using same_wt_refl. rewrite Ha, Es, Hso. cbn. auto.
   - (* SCas *)
